@@ -9,6 +9,30 @@ _RE_INV = re.compile(r"Invariant (\S+) is violated")
 _RE_PROP = re.compile(r"(?:Action|Temporal) propert(?:y|ies) (\S+)? ?(?:is|were) violated")
 
 
+class _Slot:
+    """System-wide throttle on concurrent TLC JVMs (several checks may run at once on one machine; 100 JVMs of
+    1-3 GB each exhaust memory).  A slot is an flock on one of N files; released when the JVM is done."""
+    DIR = "/tmp/verif_tlc_slots"
+    N = int(os.environ.get("VERIF_TLC_SLOTS", "20"))
+
+    def __enter__(self):
+        import fcntl
+        os.makedirs(self.DIR, exist_ok=True)
+        while True:
+            for k in range(self.N):
+                fd = os.open(os.path.join(self.DIR, "slot%d" % k), os.O_CREAT | os.O_RDWR, 0o666)
+                try:
+                    fcntl.flock(fd, fcntl.LOCK_EX | fcntl.LOCK_NB)
+                    self.fd = fd
+                    return self
+                except OSError:
+                    os.close(fd)
+            time.sleep(0.5)
+
+    def __exit__(self, *a):
+        os.close(self.fd)          # closing releases the lock
+
+
 class TlcResult:
     def __init__(self):
         self.stdout = ""
@@ -89,7 +113,9 @@ def run(pid, module, cfg_text, env=None, workers=None, timeout=900, tag=None, si
     res = TlcResult()
     for attempt in (1, 2):
         try:
-            p = subprocess.run(cmd, env=e, cwd=SPEC, stdout=subprocess.PIPE, stderr=subprocess.STDOUT, timeout=timeout)
+            with _Slot():
+                t0 = time.time()
+                p = subprocess.run(cmd, env=e, cwd=SPEC, stdout=subprocess.PIPE, stderr=subprocess.STDOUT, timeout=timeout)
         except subprocess.TimeoutExpired as ex:
             subprocess.run(["pkill", "-f", meta], check=False)       # only this run (matched by its private metadir)
             raise Machinery("TLC timed out after %ss on %s" % (timeout, module))
@@ -137,7 +163,7 @@ def judge(pid, module, records, cfg_text=None, shards=None, env=None, timeout=18
     def one(k):
         e = dict(env or {})
         e[file_env] = files[k]
-        return run(pid, module, cfg_text, env=e, workers=1, timeout=timeout, tag="%s_%d" % (tag, k), heap="3g")
+        return run(pid, module, cfg_text, env=e, workers=1, timeout=timeout, tag="%s_%d" % (tag, k), heap="2g")
 
     with ThreadPoolExecutor(max_workers=shards) as ex:
         rs = list(ex.map(one, range(shards)))
